@@ -111,6 +111,15 @@ where
         let (fri_layer_queries, fri_layer_proofs) = fri_proof
             .parse_layers::<E, H, V>(lde_domain_size, fri_options.folding_factor())
             .map_err(|err| VerifierError::ProofDeserializationError(err.to_string()))?;
+        // the FRI verifier reads one layer per layer commitment (the last commitment is for the
+        // remainder); a proof with fewer layers would leave it nothing to read
+        if fri_layer_queries.len() != fri_options.num_fri_layers(lde_domain_size) {
+            return Err(VerifierError::ProofDeserializationError(format!(
+                "expected {} FRI layers, but was {}",
+                fri_options.num_fri_layers(lde_domain_size),
+                fri_layer_queries.len()
+            )));
+        }
 
         // --- parse out-of-domain evaluation frame -----------------------------------------------
         let (ood_trace_frame, ood_constraint_evaluations) = ood_frame
